@@ -502,6 +502,17 @@ pub fn obl_bds(s: &mut Src, ctx: &mut Ctx, b4_lo: u8, b4_hi: u8) {
 /// a complete frame: byte 0 = b0 and (when b4 >= 0) byte 4 = b4 concrete, every other bit symbolic.
 /// C02: Ok <=> supported format and in-range operational status; C04/C06/C07/C08/C09/C10: fields.
 pub fn obl_df(s: &mut Src, ctx: &mut Ctx, b0: u8, b4: i32) {
+    obl_df_with(s, ctx, b0, b4, false)
+}
+
+/// the same contract with the bytes served by a plain byte-copying reader instead of the io
+/// Cursor: the alloc-only build's Cursor (no_std_io2) copies even single bytes with memcpy, which
+/// hides the concrete id bytes from CBMC (measured: df00 16 s with std, > 900 s with alloc)
+pub fn obl_df_plain_reader(s: &mut Src, ctx: &mut Ctx, b0: u8, b4: i32) {
+    obl_df_with(s, ctx, b0, b4, true)
+}
+
+fn obl_df_with(s: &mut Src, ctx: &mut Ctx, b0: u8, b4: i32, plain: bool) {
     let need = need_bytes(df_of(b0));
     let mut b = [0u8; 14];
     s.fill(&mut b[..need]);
@@ -510,11 +521,23 @@ pub fn obl_df(s: &mut Src, ctx: &mut Ctx, b0: u8, b4: i32) {
         b[4] = b4 as u8;
     }
     let buf = &b[..need];
+    let mut b32 = [0u8; 32];
+    let mut i = 0;
+    while i < need {
+        b32[i] = b[i];
+        i += 1;
+    }
     let mut c = Cursor::new(buf);
-    let mut r = Reader::new(&mut c);
-    let got = DF::from_reader_with_ctx(&mut r, ());
+    let mut pr = crate::verif_obl_reader::SchedReader { data: b32, len: need, pos: 0, calls: 0, single: false, short_at: usize::MAX, interrupt_at: usize::MAX };
+    let got = if plain {
+        let mut r = Reader::new(&mut pr);
+        DF::from_reader_with_ctx(&mut r, ())
+    } else {
+        let mut r = Reader::new(&mut c);
+        DF::from_reader_with_ctx(&mut r, ())
+    };
     let acc = accept(buf);
-    vnote!(ctx, "frame {:02x?} -> accept(spec)={} result={:?} bits_read={}", buf, acc, got, r.bits_read);
+    vnote!(ctx, "frame {:02x?} -> accept(spec)={} result={:?}", buf, acc, got);
     match &got {
         Ok(d) => {
             vcheck!(ctx, acc, "[C02] a frame is produced only for a supported format and an in-range operational status");
